@@ -35,25 +35,25 @@ theorem decode_end_le_max (f : Fmt) (d : Bytes) (off : Nat) (v : Val) (e : Nat)
     (h : unpackAt f d off = .ok (v, e)) : e ≤ max off d.length := by
   cases f with
   | struct fs =>
-    simp only [unpackAt] at h
+    simp only [unpackAt, Gen.varlenChecked, Gen.nestedChecked, Gen.arrayChecked, ↓reduceIte] at h
     obtain ⟨b, hb, h⟩ := bind_ok h
     have := (readAt_ok hb).1
     split at h <;> (cases h; omega)
   | bits =>
-    simp only [unpackAt] at h
+    simp only [unpackAt, Gen.varlenChecked, Gen.nestedChecked, Gen.arrayChecked, ↓reduceIte] at h
     obtain ⟨n, hn, h⟩ := bind_ok h
     cases h
     have := (readUint_ok hn).1; omega
   | raw => simp only [unpackAt] at h; cases h; omega
   | varlen lw base =>
-    simp only [unpackAt] at h
+    simp only [unpackAt, Gen.varlenChecked, Gen.nestedChecked, Gen.arrayChecked, ↓reduceIte] at h
     obtain ⟨n, hn, h⟩ := bind_ok h
     try dsimp only at h
     split at h
     · cases h; omega
     · cases h
   | utf8 lw base =>
-    simp only [unpackAt] at h
+    simp only [unpackAt, Gen.varlenChecked, Gen.nestedChecked, Gen.arrayChecked, ↓reduceIte] at h
     obtain ⟨n, hn, h⟩ := bind_ok h
     try dsimp only at h
     split at h
@@ -62,15 +62,15 @@ theorem decode_end_le_max (f : Fmt) (d : Bytes) (off : Nat) (v : Val) (e : Nat)
       · cases h
     · cases h
   | ipv4 =>
-    simp only [unpackAt] at h
+    simp only [unpackAt, Gen.varlenChecked, Gen.nestedChecked, Gen.arrayChecked, ↓reduceIte] at h
     obtain ⟨b, hb, h⟩ := bind_ok h
     cases h
     have := (readAt_ok hb).1; omega
   | address ipOnly =>
-    simp only [unpackAt] at h
+    simp only [unpackAt, Gen.varlenChecked, Gen.nestedChecked, Gen.arrayChecked, ↓reduceIte] at h
     have := (unpackAddressAt_bound h).1; omega
   | listOf lw f =>
-    simp only [unpackAt] at h
+    simp only [unpackAt, Gen.varlenChecked, Gen.nestedChecked, Gen.arrayChecked, ↓reduceIte] at h
     obtain ⟨n, hn, h⟩ := bind_ok h
     obtain ⟨⟨vs, o⟩, hm, h⟩ := bind_ok h
     cases h
@@ -78,26 +78,26 @@ theorem decode_end_le_max (f : Fmt) (d : Bytes) (off : Nat) (v : Val) (e : Nat)
     have b := (readUint_ok hn).1
     omega
   | array lw lenBE k itemBE =>
-    simp only [unpackAt] at h
+    simp only [unpackAt, Gen.varlenChecked, Gen.nestedChecked, Gen.arrayChecked, ↓reduceIte] at h
     obtain ⟨n, hn, h⟩ := bind_ok h
     try dsimp only at h
     split at h
     · cases h; omega
     · cases h
   | nested fs =>
-    simp only [unpackAt] at h
+    simp only [unpackAt, Gen.varlenChecked, Gen.nestedChecked, Gen.arrayChecked, ↓reduceIte] at h
     obtain ⟨n, hn, h⟩ := bind_ok h
     split at h
     · obtain ⟨⟨vs, o⟩, _, h⟩ := bind_ok h
       cases h; omega
     · cases h
   | tuple fs =>
-    simp only [unpackAt] at h
+    simp only [unpackAt, Gen.varlenChecked, Gen.nestedChecked, Gen.arrayChecked, ↓reduceIte] at h
     obtain ⟨⟨vs, o⟩, hl, h⟩ := bind_ok h
     cases h
     exact decode_list_end_le_max fs d off vs _ hl
   | flags w absolute =>
-    simp only [unpackAt] at h
+    simp only [unpackAt, Gen.varlenChecked, Gen.nestedChecked, Gen.arrayChecked, ↓reduceIte] at h
     obtain ⟨n, hn, h⟩ := bind_ok h
     cases h
     have := (readUint_ok hn).1
@@ -140,7 +140,7 @@ theorem decode_declared_lengths (f : Fmt) (d : Bytes) (off : Nat) (v : Val) (e :
   | ipv4 => simp [Declared]
   | flags w a => simp [Declared]
   | varlen lw base =>
-    simp only [unpackAt] at h
+    simp only [unpackAt, Gen.varlenChecked, Gen.nestedChecked, Gen.arrayChecked, ↓reduceIte] at h
     obtain ⟨n, hn, h⟩ := bind_ok h
     try dsimp only at h
     split at h
@@ -154,7 +154,7 @@ theorem decode_declared_lengths (f : Fmt) (d : Bytes) (off : Nat) (v : Val) (e :
       · rfl
     · cases h
   | utf8 lw base =>
-    simp only [unpackAt] at h
+    simp only [unpackAt, Gen.varlenChecked, Gen.nestedChecked, Gen.arrayChecked, ↓reduceIte] at h
     obtain ⟨n, hn, h⟩ := bind_ok h
     try dsimp only at h
     split at h
@@ -170,11 +170,11 @@ theorem decode_declared_lengths (f : Fmt) (d : Bytes) (off : Nat) (v : Val) (e :
       · cases h
     · cases h
   | address ipOnly =>
-    simp only [unpackAt] at h
+    simp only [unpackAt, Gen.varlenChecked, Gen.nestedChecked, Gen.arrayChecked, ↓reduceIte] at h
     simp only [Declared]
     exact unpackAddressAt_declared h
   | listOf lw f =>
-    simp only [unpackAt] at h
+    simp only [unpackAt, Gen.varlenChecked, Gen.nestedChecked, Gen.arrayChecked, ↓reduceIte] at h
     obtain ⟨n, hn, h⟩ := bind_ok h
     obtain ⟨⟨vs, o⟩, hm, h⟩ := bind_ok h
     cases h
@@ -183,7 +183,7 @@ theorem decode_declared_lengths (f : Fmt) (d : Bytes) (off : Nat) (v : Val) (e :
     simp only [Declared]
     exact ⟨vs, rfl, by rw [this.1, (readUint_ok hn).2], this.2⟩
   | array lw lenBE k itemBE =>
-    simp only [unpackAt] at h
+    simp only [unpackAt, Gen.varlenChecked, Gen.nestedChecked, Gen.arrayChecked, ↓reduceIte] at h
     obtain ⟨n, hn, h⟩ := bind_ok h
     try dsimp only at h
     split at h
@@ -194,7 +194,7 @@ theorem decode_declared_lengths (f : Fmt) (d : Bytes) (off : Nat) (v : Val) (e :
       rw [decodeElems_length, slice_length _ _ _ hle]; omega
     · cases h
   | nested fs =>
-    simp only [unpackAt] at h
+    simp only [unpackAt, Gen.varlenChecked, Gen.nestedChecked, Gen.arrayChecked, ↓reduceIte] at h
     obtain ⟨n, hn, h⟩ := bind_ok h
     split at h
     · rename_i hle
@@ -207,7 +207,7 @@ theorem decode_declared_lengths (f : Fmt) (d : Bytes) (off : Nat) (v : Val) (e :
       · exact decode_list_in_bounds fs _ 0 vs o (Nat.zero_le _) hl
     · cases h
   | tuple fs =>
-    simp only [unpackAt] at h
+    simp only [unpackAt, Gen.varlenChecked, Gen.nestedChecked, Gen.arrayChecked, ↓reduceIte] at h
     obtain ⟨⟨vs, o⟩, hl, h⟩ := bind_ok h
     cases h
     simp only [Declared]
@@ -233,15 +233,15 @@ theorem decode_prefix_stable (f : Fmt) (d : Bytes) (k off : Nat) (v : Val) (e : 
   cases f with
   | raw => simp [rawFree] at hrf
   | struct fs =>
-    simp only [unpackAt] at h ⊢
+    simp only [unpackAt, Gen.varlenChecked, Gen.nestedChecked, Gen.arrayChecked, ↓reduceIte] at h ⊢
     obtain ⟨b, hb, h⟩ := bind_ok h
     rw [(readAt_take hb).1]; exact h
   | bits =>
-    simp only [unpackAt] at h ⊢
+    simp only [unpackAt, Gen.varlenChecked, Gen.nestedChecked, Gen.arrayChecked, ↓reduceIte] at h ⊢
     obtain ⟨n, hn, h⟩ := bind_ok h
     rw [(readUint_take hn).1]; exact h
   | varlen lw base =>
-    simp only [unpackAt] at h ⊢
+    simp only [unpackAt, Gen.varlenChecked, Gen.nestedChecked, Gen.arrayChecked, ↓reduceIte] at h ⊢
     obtain ⟨n, hn, h⟩ := bind_ok h
     rw [(readUint_take hn).1]
     simp only [bind, Except.bind]
@@ -252,7 +252,7 @@ theorem decode_prefix_stable (f : Fmt) (d : Bytes) (k off : Nat) (v : Val) (e : 
       exact h
     · cases h
   | utf8 lw base =>
-    simp only [unpackAt] at h ⊢
+    simp only [unpackAt, Gen.varlenChecked, Gen.nestedChecked, Gen.arrayChecked, ↓reduceIte] at h ⊢
     obtain ⟨n, hn, h⟩ := bind_ok h
     rw [(readUint_take hn).1]
     simp only [bind, Except.bind]
@@ -263,15 +263,15 @@ theorem decode_prefix_stable (f : Fmt) (d : Bytes) (k off : Nat) (v : Val) (e : 
       exact h
     · cases h
   | ipv4 =>
-    simp only [unpackAt] at h ⊢
+    simp only [unpackAt, Gen.varlenChecked, Gen.nestedChecked, Gen.arrayChecked, ↓reduceIte] at h ⊢
     obtain ⟨b, hb, h⟩ := bind_ok h
     rw [(readAt_take hb).1]; exact h
   | address ipOnly =>
-    simp only [unpackAt] at h ⊢
+    simp only [unpackAt, Gen.varlenChecked, Gen.nestedChecked, Gen.arrayChecked, ↓reduceIte] at h ⊢
     exact unpackAddressAt_take h
   | listOf lw f =>
     simp only [rawFree] at hrf
-    simp only [unpackAt] at h ⊢
+    simp only [unpackAt, Gen.varlenChecked, Gen.nestedChecked, Gen.arrayChecked, ↓reduceIte] at h ⊢
     obtain ⟨n, hn, h⟩ := bind_ok h
     obtain ⟨⟨vs, o⟩, hm, h⟩ := bind_ok h
     rw [(readUint_take hn).1]
@@ -279,7 +279,7 @@ theorem decode_prefix_stable (f : Fmt) (d : Bytes) (k off : Nat) (v : Val) (e : 
     rw [manyAt_take (unpackAt f) k (fun d off v e hu => decode_prefix_stable f d k off v e hrf hu) n d _ vs o hm]
     exact h
   | array lw lenBE kd itemBE =>
-    simp only [unpackAt] at h ⊢
+    simp only [unpackAt, Gen.varlenChecked, Gen.nestedChecked, Gen.arrayChecked, ↓reduceIte] at h ⊢
     obtain ⟨n, hn, h⟩ := bind_ok h
     rw [(readLen_take hn).1]
     simp only [bind, Except.bind]
@@ -290,7 +290,7 @@ theorem decode_prefix_stable (f : Fmt) (d : Bytes) (k off : Nat) (v : Val) (e : 
       exact h
     · cases h
   | nested fs =>
-    simp only [unpackAt] at h ⊢
+    simp only [unpackAt, Gen.varlenChecked, Gen.nestedChecked, Gen.arrayChecked, ↓reduceIte] at h ⊢
     obtain ⟨n, hn, h⟩ := bind_ok h
     rw [(readUint_take hn).1]
     simp only [bind, Except.bind]
@@ -302,12 +302,12 @@ theorem decode_prefix_stable (f : Fmt) (d : Bytes) (k off : Nat) (v : Val) (e : 
     · cases h
   | tuple fs =>
     simp only [rawFree] at hrf
-    simp only [unpackAt] at h ⊢
+    simp only [unpackAt, Gen.varlenChecked, Gen.nestedChecked, Gen.arrayChecked, ↓reduceIte] at h ⊢
     obtain ⟨⟨vs, o⟩, hl, h⟩ := bind_ok h
     rw [decode_list_prefix_stable fs d k off vs o hrf hl]
     exact h
   | flags w absolute =>
-    simp only [unpackAt] at h ⊢
+    simp only [unpackAt, Gen.varlenChecked, Gen.nestedChecked, Gen.arrayChecked, ↓reduceIte] at h ⊢
     obtain ⟨n, hn, h⟩ := bind_ok h
     rw [(readUint_take hn).1]; exact h
 theorem decode_list_prefix_stable (fs : FmtList) (d : Bytes) (k off : Nat) (vs : List Val) (e : Nat)
@@ -532,7 +532,7 @@ theorem foldl_applyOp_pending (key : Option Bytes) (ops : List RegOp) (h : ∀ o
     | addp x q =>
       simp only [applyOp]
       split <;> rfl
-    | rm x => rfl
+    | rm x => rw [applyOp_rm]
     | setOpen b => rfl
 
 /-- termination of notify_listeners: unless a listener keeps registering listeners during the dispatch (in which case
@@ -621,7 +621,7 @@ theorem dispatch_called (env : Env) (dec : Nat → Bytes → Dec) (src data : By
               · exact hgood x data op hop
               · cases hop)
           { s with net := if hasSender (stepOut env dec src data s x).1 then (s.net.lookup src).2 else s.net,
-                   pending := pre' ++ l :: post } hopen hinv
+                   pending := pre' ++ l :: post, seen := s.seen ++ [x] } hopen hinv
         obtain ⟨htab, hopen', hinv', extra, hpend⟩ := hfold
         apply ih _ pre' (post ++ extra)
         · unfold stepState; rw [hpend]; simp
